@@ -27,7 +27,14 @@ static time_t verif_time (time_t *t)
 #define NSLOT 8
 #define MAXP 64
 struct cbst { int n; size_t lens[MAXP]; int ending; int idx; };
+struct iovmem { void *pool; void *decoy[MAXP]; int nd; };
 struct slot { struct MHD_Response *r; struct cbst cb; };
+static void iov_free (void *cls)
+{
+  struct iovmem *m = (struct iovmem *) cls;
+  for (int i = 0; i < m->nd; i++) free (m->decoy[i]);
+  free (m->pool); free (m);
+}
 static struct slot slots[NSLOT];
 
 /* response flags / flags_auto travel over the line protocol in a canonical numbering (strict=1 server=2
@@ -296,6 +303,79 @@ int main (void)
         slots[i].r = MHD_create_response_empty (c2rf ((unsigned) b));
         puts (slots[i].r ? "ok" : "fault new");
       }
+      else if (l.n == 4 && !strcmp (l.w[2], "iov"))
+      {
+        /* element array: "-" = no elements; "N<cnt>" = NULL array pointer with iovcnt = cnt; otherwise a comma list of
+           z (NULL base, length 0) | d (length 0, base = a foreign one-byte heap block) | n<len> (NULL base, length len)
+           | <off>:<len> (len bytes at offset off of one shared pattern block, allocated with the exact size needed) */
+        struct MHD_IoVec v[MAXP]; uint64_t offs[MAXP]; int isl[MAXP]; unsigned n = 0; int okk = 1, nullarr = 0; uint64_t cnt = 0, need = 0;
+        struct iovmem *mem = (struct iovmem *) calloc (1, sizeof(*mem));
+        memset (v, 0, sizeof(v)); memset (isl, 0, sizeof(isl));
+        if (l.w[3][0] == 'N') { nullarr = 1; if (!lp_u64 (l.w[3] + 1, &cnt) || cnt > 1000) okk = 0; }
+        else if (strcmp (l.w[3], "-"))
+        {
+          char *p = l.w[3];
+          while (okk && *p)
+          {
+            char *e = strchr (p, ','), *c; uint64_t a1, a2;
+            if (e) *e = 0;
+            if (n >= MAXP) { okk = 0; break; }
+            if (!strcmp (p, "z")) { v[n].iov_base = NULL; v[n].iov_len = 0; }
+            else if (!strcmp (p, "d")) { char *dd = (char *) malloc (1); dd[0] = '#'; mem->decoy[mem->nd++] = dd; v[n].iov_base = dd; v[n].iov_len = 0; }
+            else if (p[0] == 'n' && lp_u64 (p + 1, &a1)) { v[n].iov_base = NULL; v[n].iov_len = (size_t) a1; }
+            else if ((c = strchr (p, ':')) != NULL)
+            {
+              *c = 0;
+              if (!lp_u64 (p, &a1) || !lp_u64 (c + 1, &a2) || a1 > (1u << 20) || a2 > (1u << 20)) { okk = 0; break; }
+              offs[n] = a1; isl[n] = 1; v[n].iov_len = (size_t) a2;
+              if (a1 + a2 > need) need = a1 + a2;
+            }
+            else okk = 0;
+            n++;
+            if (!e) break;
+            p = e + 1;
+          }
+        }
+        if (!okk) { puts ("bad-op"); iov_free (mem); continue; }
+        mem->pool = malloc (need ? need : 1);
+        for (size_t j = 0; j < need; j++) ((char *) mem->pool)[j] = (char) pat (j);
+        for (unsigned j = 0; j < n; j++) if (isl[j]) v[j].iov_base = (char *) mem->pool + offs[j];
+        slot_free (i);
+        slots[i].r = MHD_create_response_from_iovec (nullarr ? NULL : v, nullarr ? (unsigned) cnt : n, &iov_free, mem);
+        if (!slots[i].r) { iov_free (mem); puts ("null"); }
+        else puts ("ok");
+      }
+      else if (l.n == 4 && !strcmp (l.w[2], "bufnull") && lp_u64 (l.w[3], &b) && b < (1u << 24))
+      {
+        slot_free (i);
+        slots[i].r = (i % 2) ? MHD_create_response_from_buffer ((size_t) b, NULL, MHD_RESPMEM_PERSISTENT)
+                     : MHD_create_response_from_buffer_static ((size_t) b, NULL);
+        puts (slots[i].r ? "ok" : "null");
+      }
+      else if (l.n == 6 && !strcmp (l.w[2], "fd"))
+      {
+        uint64_t size, off, fsize; FILE *f; int fd;
+        if (!lp_u64 (l.w[3], &size) || !lp_u64 (l.w[4], &off) || !lp_u64 (l.w[5], &fsize) || fsize > (1u << 22)) { puts ("bad-op"); continue; }
+        f = tmpfile ();
+        if (!f) { puts ("fault tmpfile"); continue; }
+        for (size_t j = 0; j < fsize; j++) fputc ((int) pat (j), f);
+        fflush (f);
+        fd = dup (fileno (f)); fclose (f);
+        slot_free (i);
+        slots[i].r = (0 == off && (i % 2)) ? MHD_create_response_from_fd64 (size, fd)
+                     : MHD_create_response_from_fd_at_offset64 (size, fd, off);
+        if (!slots[i].r) { close (fd); puts ("null"); } else puts ("ok");
+      }
+      else if (l.n == 4 && !strcmp (l.w[2], "pipe") && lp_u64 (l.w[3], &b) && b <= 4096)
+      {
+        int pf[2];
+        if (0 != pipe (pf)) { puts ("fault pipe"); continue; }
+        for (size_t j = 0; j < b; j++) { char ch = (char) pat (j); if (1 != write (pf[1], &ch, 1)) break; }
+        close (pf[1]);
+        slot_free (i);
+        slots[i].r = MHD_create_response_from_pipe (pf[0]);
+        if (!slots[i].r) { close (pf[0]); puts ("null"); } else puts ("ok");
+      }
       else if (l.n == 3 && !strcmp (l.w[2], "upg"))
       {
         slot_free (i);
@@ -470,6 +550,52 @@ int main (void)
       if (MHD_NO == r) puts ("NO");
       else { printf ("out="); lp_puthex (stdout, fc.write_buffer, fc.write_buffer_append_offset); putchar ('\n'); }
       free (fc.write_buffer);
+    }
+    /* ---------------- error reply generated by the daemon itself (white box) */
+    else if (!strcmp (op, "terr") && l.n == 17 && p_b (l.w[1], &i1) && p_b (l.w[2], &i2) && p_b (l.w[3], &i3)
+             && p_int (l.w[4], &ka) && ok_ka (ka) && p_b (l.w[5], &rc) && p_int (l.w[6], &ver) && ok_ver (ver)
+             && lp_u64 (l.w[7], &a) && a < 4 && p_int (l.w[8], &m) && ok_mthd (m))
+    {
+      int sup, nodate; uint64_t code, wb1, wb2; size_t ml, hnl = 0, hvl = 0;
+      uint8_t *msg, *hn = NULL, *hv = NULL; char *hn_m = NULL, *hv_m = NULL;
+      if (!p_b (l.w[9], &sup) || !p_b (l.w[10], &nodate) || !lp_u64 (l.w[11], &code) || code > 0xFFFFFFFFu
+          || !lp_u64 (l.w[15], &wb1) || !lp_u64 (l.w[16], &wb2) || wb1 > wb2 || wb2 > (1u << 20) || wb2 < 16
+          || !(msg = lp_unhex (l.w[12], &ml))) { puts ("bad-op"); continue; }
+      if (strcmp (l.w[13], "none"))
+      {
+        hn = lp_unhex (l.w[13], &hnl); hv = lp_unhex (l.w[14], &hvl);
+        if (!hn || !hv || !hnl || !hvl) { puts ("bad-op"); free (hn); free (hv); free (msg); continue; }
+        hn_m = (char *) malloc (hnl + 1); memcpy (hn_m, hn, hnl); hn_m[hnl] = 0;
+        hv_m = (char *) malloc (hvl + 1); memcpy (hv_m, hv, hvl); hv_m[hvl] = 0;
+        free (hn); free (hv);
+      }
+      fake_reset ();
+      set_conn_tokens ((unsigned) a);
+      fc.pool = MHD_pool_create ((size_t) wb2);
+      if (!fc.pool) { puts ("fault pool"); free (hn_m); free (hv_m); free (msg); continue; }
+      if (wb2 > wb1) (void) MHD_pool_allocate (fc.pool, (size_t) (wb2 - wb1), false);  /* request data still in the pool */
+      fc.stop_with_error = i1;
+      fc.state = i2 ? MHD_CONNECTION_HEADERS_SENDING : MHD_CONNECTION_REQ_HEADERS_RECEIVING;
+      fdaemon.shutdown = i3;
+      fc.keepalive = (enum MHD_ConnKeepAlive) ka; fc.read_closed = rc;
+      fc.rq.http_ver = (enum MHD_HTTP_Version) ver; fc.rq.http_mthd = (enum MHD_HTTP_Method) m;
+      if (sup) fdaemon.options = MHD_USE_SUPPRESS_DATE_NO_CLOCK;
+      verif_time_fail = nodate;
+      transmit_error_response_len (&fc, (unsigned) code, (const char *) msg, ml, hn_m, hnl, hv_m, hvl);
+      verif_time_fail = 0;
+      if (MHD_CONNECTION_CLOSED == fc.state) puts ("closed");
+      else if (MHD_CONNECTION_HEADERS_SENDING != fc.state || NULL == fc.rp.response) printf ("fault state=%d\n", (int) fc.state);
+      else
+      {
+        printf ("sent ka=%d p=%c dr=%d swe=%d pos=%llu total=%llu hdr=", (int) fc.keepalive, props_char (), fc.discard_request ? 1 : 0,
+                fc.stop_with_error ? 1 : 0, (unsigned long long) fc.rp.rsp_write_position,
+                (unsigned long long) fc.rp.response->total_size);
+        lp_puthex (stdout, fc.write_buffer, fc.write_buffer_append_offset); putchar ('\n');
+      }
+      if (fc.rp.response) { MHD_destroy_response (fc.rp.response); fc.rp.response = NULL; }
+      if (fc.pool) { MHD_pool_destroy (fc.pool); fc.pool = NULL; }
+      fc.pool = zpool;
+      free (msg);
     }
     /* ---------------- the token helpers of mhd_str.c used by the response code */
     else if (!strcmp (op, "rt") && l.n == 3)
